@@ -135,8 +135,8 @@ CHECKS = {
     "C19": dict(
         category="model_checking",
         technique="explicit-state BFS over message histories driving the real forecaster and DerivationTree.append, compared state by state with a reference message-level language",
-        text="For ~440 (thorough ~1300) protocol grammars of operator depth <= 2 over message atoms <A:B:m1>, <B:A:m2>, <A:B:m3> (|, concatenation, ?, *, +, {2}, {1,2}, {2,}, {0,2}, nesting through intermediate symbols, recursion) every history reachable by mounting forecast options (every message type x every mounting path) up to 4 (thorough 6) messages is explored; in every state the predicted (sender, recipient, type) set must equal the letters that extend the history to a prefix of the reference language and complete_trees must be non-empty exactly for full interactions.",
-        note="Messages between two external parties (slicing) are covered with an erasing projection as reference, except grammars where an invisible alternative branch makes the sliced semantics undefined. Two deviations are recorded known findings.",
+        text="For ~440 (thorough ~1300) protocol grammars of operator depth <= 2 over message atoms <A:B:m1>, <B:A:m2>, <A:B:m3> (|, concatenation, ?, *, +, {2}, {1,2}, {2,}, {0,2}, nesting through intermediate symbols, recursion) every history reachable by mounting forecast options (every message type x every mounting path) up to 4 (thorough 6) messages is explored, on the unsliced spec and on the spec sliced to each single party; in every state the predicted (sender, recipient, type) set must equal the letters that extend the history to a prefix of the reference language and complete_trees must be non-empty exactly for full interactions.",
+        note="Messages between two external parties are covered with an erasing projection as reference (grammars where an invisible alternative branch makes that reading ambiguous are skipped there). Specs sliced with slice_parties to {A} and to {B} are judged against the projection to the kept party under either reading of slicing (erase / remove). A forecast that exceeds the parser budget is reported as a cap, not judged. Two deviations are recorded known findings; the slicing defect (wrong node removed) was repaired.",
         design="4 C19",
     ),
     "C20": dict(
